@@ -272,10 +272,11 @@ def explore(system, tier='quick', seed=0, workers=None, log=print):
     pool = ctx.Pool(workers) if workers > 1 else None
     seen = set()
     nontrivial = set(); outcomes = set()
+    partial = []
 
     def run_chunks(kind, items, want_succ):
         if not items: return []
-        n = max(1, min(len(items), workers * 6))
+        n = max(1, min(len(items), max(workers * 6, len(items) // 200)))
         size = max(1, (len(items) + n - 1) // n)
         chunks = [(kind, items[i:i + size], want_succ) for i in range(0, len(items), size)]
         if pool is None:
@@ -284,6 +285,11 @@ def explore(system, tier='quick', seed=0, workers=None, log=print):
 
     def absorb(outs, frontier_next):
         for o in outs:
+            if tcap is not None and time.time() - t0 > tcap * 1.25 + 5 and not partial:
+                # hard stop inside a level: what was absorbed so far stays valid, the level is reported as incomplete
+                partial.append(True)
+            if partial:
+                break
             if o['error']:
                 raise HarnessError(o['error'])
             res.transitions += o['transitions']; res.rejected += o['rejected']; res.cut += o['cut']
@@ -321,6 +327,9 @@ def explore(system, tier='quick', seed=0, workers=None, log=print):
             # deterministic order whatever the pool returns
             frontier.sort(key=lambda e: (e[0], len(e[2]), repr(e[2])))
             absorb(run_chunks('expand', frontier, not last), nxt)
+            if partial:
+                stopped = f'time cap {tcap}s exceeded inside level {level + 1}; that level is incomplete'
+                break
             level += 1
             res.depth_completed = level
             frontier = nxt if nxt is not None else []
